@@ -79,6 +79,16 @@ class C14(Spec):
         import asgen
         import c06
         items = []
+        # every inline style element with blanks at its edges, next to unstyled siblings, alone in a block, nested, and before a
+        # line break: the blanks the renderer trims or merges must take their styling with them
+        tags = ["b", "strong", "i", "em", "u", "s", "del", "code", "mark", "a href=\"https://l.example/\"", "big", "small"]
+        for tg in tags:
+            close = tg.split(" ")[0]
+            for body in ("<p><%s>foo </%s>bar</p><p>next</p>", "<p>pre <%s> foo</%s> bar</p>", "<p><%s> </%s>x</p>", "<p><%s>foo\n</%s>\nbar</p>",
+                         "<%s>foo </%s><br>bar", "<ul><li><%s>item </%s></li><li>two</li></ul>", "<p><%s>foo <i>in </i></%s>out</p>", "<h2><%s>head </%s>line</h2>text"):
+                html = body % (tg, close)
+                for mt in ("text/html", "text/markdown"):
+                    items.append(c06.itemx_case({"type": "Note", "content": html, "mediaType": mt}, 0, [80, 9], [1]))
         for _ in range(300 if tier == "quick" else 20000):
             ctor = rng.choice((0, 0, 1, 2, 3))
             doc = (asgen.post, asgen.actor, asgen.activity, asgen.collection)[ctor](rng, 2, 0.05)
